@@ -169,7 +169,8 @@ def singlelane_conformance(ck, n_scen, reps, thorough, salt=71):
         tiny += [(c, [a, b], [x, y]) for c in (1, 2) for a in SB.MODES for b in SB.MODES for x in ('block', 'timed')
                  for y in ('block', 'nowait')]
     for j, (cap, wo, ro) in enumerate(tiny):
-        for line in ((False, True) if thorough else ((True,) if j in (0, 3) else (False,))):
+        # (line mode multiplies the scheduling points: used for the four base programs; the thorough grid runs at lock granularity)
+        for line in ((False, True) if (thorough and j < 4) else ((True,) if j in (0, 3) else (False,))):
             k += 1
             items.append({'id': k, 'sc': {'cap': cap, 'ops': [wo, ro], 'tmo': [0.01, 0.02], 'line': line}, 'strategy': 'dfs',
                           'bound': 3 if thorough else 2, 'max_runs': 6000 if thorough else 3000})
